@@ -17,8 +17,10 @@ PowM(b, e, m) == IF e = 0 THEN 1 % m
                  ELSE IF e % 2 = 0 THEN LET h == PowM(b, e \div 2, m) IN (h * h) % m
                  ELSE (b * PowM(b, e - 1, m)) % m
 InvM(a, m) == PowM(a, m - 2, m)
-RECURSIVE FoldDigits(_,_,_)   \* decimal digits (most significant first) -> field element
-FoldDigits(ds, acc, m) == IF Len(ds) = 0 THEN acc ELSE FoldDigits(Tail(ds), (acc * 10 + Head(ds)) % m, m)
+\* decimal digits (most significant first) -> field element; by index (Tail copies the sequence: quadratic on 4,000-digit literals)
+RECURSIVE FoldDigitsFrom(_,_,_,_)
+FoldDigitsFrom(ds, i, acc, m) == IF i > Len(ds) THEN acc ELSE FoldDigitsFrom(ds, i + 1, (acc * 10 + ds[i]) % m, m)
+FoldDigits(ds, acc, m) == FoldDigitsFrom(ds, 1, acc, m)
 RECURSIVE FactM(_,_)
 FactM(n, m) == IF n <= 1 THEN 1 % m ELSE (n * FactM(n - 1, m)) % m
 
